@@ -1,7 +1,7 @@
 (* C03 — table obligations about the upstream reply reader (dialvia/http.go). *)
 From Coq Require Import List NArith Bool.
 From FwdLib Require Import Bytes.
-From G03 Require Import Tables ReplyReader.
+From G03 Require Import Tables ReplyReader Socks.
 Import ListNotations.
 Open Scope N_scope.
 
@@ -27,4 +27,15 @@ Proof. vm_compute. reflexivity. Qed.
 
 Lemma ob_head_example :
   head_overread true 128 (b "HTTP/1.1 200 OK" ++ [13;10;13;10] ++ b "banner") [64%nat] = Some [].
+Proof. vm_compute. reflexivity. Qed.
+
+(* a SOCKS5 reply with a name as bound address, a banner right behind it *)
+Definition socks_example_ok : bool :=
+  let rep := [5; 0; 5; 0; 0; 3; 4] ++ b "host" ++ [31; 144] in
+  match socks_connect rep, socks_connect (rep ++ b "banner") with
+  | Some (c1, r1), Some (c2, r2) => str_eqb c1 rep && str_eqb c2 rep && str_eqb r2 (b "banner")
+                                    && match r1 with [] => true | _ => false end
+  | _, _ => false
+  end.
+Lemma ob_socks_example : socks_example_ok = true.
 Proof. vm_compute. reflexivity. Qed.
